@@ -77,6 +77,14 @@ def sh_err(ctx, out, bodies, rule="SH.err", floor=1):
                         used.add(key)
                         out.exception(key, exc[key])
                         continue
+                    # reading one of the documented environment variables: "unset" is not an error,
+                    # wherever and with whichever idiom (unwrap_or, is_ok, match) the code reads it
+                    envkey = "SH.err|env|%s" % detail
+                    if envkey in exc and (re.search(r"^std::env::var(_os)?$", callee_name(t)) or
+                                          (re.search(r"Result::<T, E>::(as_deref|as_ref)$", callee_name(t)) and find_calls(ctx.expr(b).call(t, bi), r"^std::env::var(_os)?$"))):
+                        used.add(envkey)
+                        out.exception(envkey, exc[envkey])
+                        continue
                     out.viol(rule, key, ctx.where(b, t["span"]),
                              "the Result produced by `%s` is %s (%s): an error on this path would not reach the exit status"
                              % (callee_name(t), r["class"], r["detail"]))
